@@ -41,7 +41,7 @@ def check_pipeline(ctx, fb, cfg, fn, from_tree, with_values):
     ctx.touch(it)
     inst = "%s[%s]" % (fn, cfg)
     eng = Engine(fb, inline=opaque_rx(OPQ))
-    oks = [p for p in eng.run(it) if p.kind == "return" and known_ok(eng.value_of(p.store, p.ret)) is True]
+    oks = [p for p in eng.run(it) if p.kind == "return" and known_ok(eng.value_of(p.store, p.ret)) is not False]
     if len(oks) != 1:
         ctx.fail("R01-1", inst, "expected exactly one success path, found %d" % len(oks), loc(it))
         return 1
@@ -124,7 +124,7 @@ def check_request(ctx, fb, cfg):
     ctx.touch(it)
     inst = "%s[%s]" % (fn, cfg)
     eng = Engine(fb, inline=opaque_rx(r"^rln::hashers::hash_to_field$|ZerokitMerkle(Tree|Proof)>::"))
-    oks = [(p, eng.value_of(p.store, p.ret)) for p in eng.run(it) if p.kind == "return" and known_ok(eng.value_of(p.store, p.ret)) is True]
+    oks = [(p, eng.value_of(p.store, p.ret)) for p in eng.run(it) if p.kind == "return" and known_ok(eng.value_of(p.store, p.ret)) is not False]
     if len(oks) != 1:
         ctx.fail("R01-3", inst, "expected one success path, found %d" % len(oks), loc(it))
         return
@@ -187,7 +187,7 @@ def check_generate(ctx, fb, cfg):
     it = fb.need("rln::protocol::inputs_for_witness_calculation")
     ctx.touch(it)
     eng = Engine(fb, inline=lambda i: False)
-    oks = [eng.value_of(p.store, p.ret) for p in eng.run(it) if p.kind == "return" and known_ok(eng.value_of(p.store, p.ret)) is True]
+    oks = [eng.value_of(p.store, p.ret) for p in eng.run(it) if p.kind == "return" and known_ok(eng.value_of(p.store, p.ret)) is not False]
     why = None
     if len(oks) != 1 or oks[0][4][0][0] != "array":
         why = "expected one success path returning an array, found %d" % len(oks)
@@ -222,7 +222,7 @@ def check_generate(ctx, fb, cfg):
     g = fb.need("rln::protocol::generate_proof")
     ctx.touch(g)
     e3 = Engine(fb, inline=opaque_rx(r"^rln::protocol::inputs_for_witness_calculation$|^rln::circuit::calculate_rln_witness$"))
-    oks = [(p, e3.value_of(p.store, p.ret)) for p in e3.run(g) if p.kind == "return" and known_ok(e3.value_of(p.store, p.ret)) is True]
+    oks = [(p, e3.value_of(p.store, p.ret)) for p in e3.run(g) if p.kind == "return" and known_ok(e3.value_of(p.store, p.ret)) is not False]
     why = None
     if len(oks) != 1:
         why = "expected one success path, found %d" % len(oks)
